@@ -459,8 +459,8 @@ func c14Scenarios(tier string) []Scenario {
 			if n >= 3 {
 				bound = 1
 			}
-			if thorough && n <= 3 {
-				bound = 2
+			if thorough && n == 3 && len(kindsOf(seq)) <= 2 {
+				bound = 2 // length-3 sequences over at most two distinct kinds also at bound 2
 			}
 			for h := 0; h < 3; h++ {
 				if n >= 4 && h != 1 {
@@ -498,4 +498,12 @@ func c14Scenarios(tier string) []Scenario {
 		}
 	}
 	return out
+}
+
+func kindsOf(seq []SrvDgKind) map[SrvDgKind]bool {
+	m := map[SrvDgKind]bool{}
+	for _, k := range seq {
+		m[k] = true
+	}
+	return m
 }
